@@ -66,16 +66,22 @@ func init() {
 					if class != 3 && sl != 3 {
 						continue
 					}
-					js = append(js, sym.Job{Harness: "VH_C13_extract_pure", Params: map[string]int{"class": class, "strlen": sl}})
+					js = append(js, sym.Job{Harness: "VH_C13_extract_pure", Params: map[string]int{"class": class, "strlen": sl, "same": 0}})
 				}
+			}
+			// ExtractFields over two fields of the same type that sit on the same registers with different byte orders:
+			// each value must equal what the field decodes to on its own from a fresh view (so neither the order of the
+			// fields nor the presence of the other one matters) - the end-to-end harness of C05 with same-type pairs
+			for _, c := range []int{1, 2, 3, 9} {
+				js = append(js, sym.Job{Harness: "VH_C05_extract", Params: map[string]int{"k": 2, "target": 4, "lenient": 0, "trunc": 0, "strlen": 4, "c0": c, "c1": c, "c2": 0, "c3": 0, "tricky": 0, "same": 1}, MaxPath: 400000})
 			}
 			return js
 		},
 		Bounds: map[string]string{
-			"quick":    "one call (and its repetition) of each of the 23 accessors from an arbitrary payload/Registers state; one Field.ExtractFrom (8 field classes, byte order symbolic) followed by default-order probes and a repetition; n in {1,2,4,125}; string lengths {1,2,3,4,7,250}; all arguments symbolic",
+			"quick":    "one call (and its repetition) of each of the 23 accessors from an arbitrary payload/Registers state; one Field.ExtractFrom (8 field classes, byte order symbolic) followed by default-order probes and a repetition; ExtractFields over two fields of the same type (Uint32, Float64, String, Uint64) on the same registers, byte orders symbolic and independent: each value equals the field's own decoding from a fresh view; n in {1,2,4,125}; string lengths {1,2,3,4,7,250}; all arguments symbolic",
 			"thorough": "n in {1..8,16,32,64,100,124,125}; string lengths {1..8,16,100,250,255}",
 		},
 		Outside:   []string{"sequences are covered by induction on the unchanged-state step, not enumerated", "ExtractFields over several fields of one response is exercised in C05 (its expected values come from fresh views, so a mutation of the shared view shows there as a wrong value)"},
-		MinCovers: []string{"called", "extracted"},
+		MinCovers: []string{"called", "extracted", "value-compared"},
 	})
 }
